@@ -58,7 +58,9 @@ fn fuzz_campaign(rep: &mut Report, tier: &str, target: &str, runs: u64, max_len:
 fn enumerate_into(rep: &mut Report, tier: &str, id: &'static str, fl: skv_verif::engine_sched::Flavor, findings: &Findings) {
     use skv_verif::engine_sched::{enumerate_schedules, enumeration_programs, sched_prop};
     let def = sched_prop(id, fl);
-    let max_preempt = if tier == "thorough" { 2 } else { 1 };
+    // C01's programs need two pre-emptions for the interesting schedules (committer parked after its apply, the flusher
+    // runs to the end, the committer is pre-empted again at once and the reader runs): also in the quick tier (~40 s)
+    let max_preempt = if tier == "thorough" || matches!(fl, skv_verif::engine_sched::Flavor::C01) { 2 } else { 1 };
     let mut summary = Vec::new();
     for (name, template, horizon) in enumeration_programs(fl) {
         let cases = enumerate_schedules(&template, max_preempt, horizon);
